@@ -391,6 +391,49 @@ pub fn run_sweep(ctx: &Ctx, rep: &mut Report) {
                     }
                 }
             }
+            // the same family without a reference: columns up to order and strand; indel records up to order and strand
+            let mut outs_nr: std::collections::BTreeMap<String, Vec<(usize, u64)>> = std::collections::BTreeMap::new();
+            for hs in 0..nseeds {
+                for t in [1usize, 3] {
+                    rep.evaluations += 1;
+                    rep.nontrivial += 1;
+                    match lo::run_lo(&dir, k, &samples, None, &[], t, Some(ctx.seed + hs)) {
+                        Ok(o) if o.code == 0 => {
+                            let cols = lo::snp_columns(&o).map(|c| c.iter().map(|x| String::from_utf8_lossy(x).to_string()).collect::<Vec<_>>());
+                            let mut ind: Vec<String> = lo::parse_indels(&o.indels_vcf)
+                                .iter()
+                                .map(|r| {
+                                    let fwd = format!("{} {} {} {} {:?}", r.ref_allele, r.alt_allele, r.before, r.after, r.gts);
+                                    let rcs = |x: &str| if x == "-" { x.to_string() } else { String::from_utf8_lossy(&rc_str(x.as_bytes())).to_string() };
+                                    let rev = format!("{} {} {} {} {:?}", rcs(&r.ref_allele), rcs(&r.alt_allele), rcs(&r.after), rcs(&r.before), r.gts);
+                                    std::cmp::min(fwd, rev)
+                                })
+                                .collect();
+                            ind.sort();
+                            outs_nr.entry(format!("{:?} {cols:?} {ind:?}", o.snp_names)).or_default().push((t, ctx.seed + hs));
+                        }
+                        Ok(o) => {
+                            ok = false;
+                            rep.violate(format!("lo-noref {fam} family threads={t} seed={hs}"), format!("ska lo ({fam} family, no reference) exits {} {}", o.code, o.stderr_tail), json!({"cmd": "LoNoRefSeeds", "family": fam, "threads": t, "hash_seed": hs}));
+                        }
+                        Err(e) => rep.machinery(e),
+                    }
+                }
+            }
+            rep.extra.insert(format!("max_lo_noref_distinct_outputs[{fam}]"), json!(outs_nr.len()));
+            if ok && outs_nr.len() > 1 {
+                let groups: Vec<String> = outs_nr.values().map(|v| format!("{v:?}")).collect();
+                let keys: Vec<&String> = outs_nr.keys().collect();
+                // first difference between the first two outputs, for the message
+                let (a, b) = (keys[0], keys[1]);
+                let at = a.bytes().zip(b.bytes()).position(|(x, y)| x != y).unwrap_or(a.len().min(b.len()));
+                let from = at.saturating_sub(60);
+                rep.violate(
+                    format!("lo-noref {fam} family: {} different results", outs_nr.len()),
+                    format!("ska lo without a reference ({fam} family) gives {} different results (columns up to order and strand, indel records up to order and strand) depending on (threads, hash seed): groups {}; first difference: …{}… vs …{}…", outs_nr.len(), groups.join(" vs "), &a[from..(at + 60).min(a.len())], &b[from..(at + 60).min(b.len())]),
+                    json!({"cmd": "LoNoRefSeeds", "family": fam, "groups": groups}),
+                );
+            }
             rep.corner(&format!("lo_ref_many_seeds[{fam}]"));
             rep.extra.insert(format!("max_lo_ref_distinct_outputs[{fam}]"), json!(outs.len()));
             if ok && outs.len() > 1 {
